@@ -69,6 +69,8 @@ class Property(Base):
                         and bi.split(" LOG ")[1] == bs.split(" LOG ")[1]):
                     return False
                 pdiff = bi.split(" P ")[1].split(" LOG ")[0]
+                if "FOREIGN" in pdiff:     # a foreign memory was written: never part of the recorded class
+                    return False
                 for reg in pdiff.split(","):
                     a, hx = reg.split(":")
                     a = int(a, 16)
